@@ -34,7 +34,7 @@ class Ctx:
         except Exception:
             pass
 
-    def guards(self, func, node, asserts=False):
+    def guards(self, func, node, asserts=False, derived=False):
         """Branch conditions that edge-dominate the evaluation of AST node `node`
         in `func`: list of (canonical condition, branch value, condition AST, is_assert)."""
         g = cfg_of(func)
@@ -64,6 +64,17 @@ class Ctx:
                 from .rules.common import subst_counts
                 gc = subst_counts(gc, ast["_u"])
             out.append((gc, val, ast, en.from_assert))
+        # compound conditions no single branch edge stands for: the then-branch of `if (a || b)`, the code after `if (a && b) continue;`
+        # (the CFG splits them into short-circuit edges, none of which dominates). They are reported whole.
+        out.extend(self._compound_guards(func, node))
+        # boolean predicates of the library used as conditions: `if (!rowAcceptsCell(cell, row)) return ...` establishes, on the
+        # other branch, whatever holds whenever the predicate returns true (the conjuncts of its return expression, the guards of its
+        # `return true` statements), translated to the arguments
+        for gc, val, ast, fa in (list(out) if derived else []):
+            if not isinstance(val, bool) or not isinstance(ast, dict):
+                continue
+            for fact in self._predicate_facts(ast, val):
+                out.append(fact + (ast, fa))
         # validation helpers: a dominating call statement `check(a, b)` of a library function every normal return of which is
         # dominated by conditions over its parameters (`if (bad) throw`) establishes those conditions for the arguments
         for d in g.dominators(cn):
@@ -72,6 +83,77 @@ class Ctx:
             for gc, val, call in self._helper_facts(d.ast):
                 out.append((gc, val, call, False))
         return out
+
+    def _predicate_facts(self, cond_ast, val, _depth=0):
+        from .expr import strip as _strip, callee_info as _ci, children as _children
+        e = _strip(cond_ast, casts=True)
+        while isinstance(e, dict) and e.get("kind") == "UnaryOperator" and e.get("opcode") == "!":
+            e, val = _strip(_children(e)[0], casts=True), not val
+        if not isinstance(e, dict) or e.get("kind") not in ("CallExpr", "CXXMemberCallExpr") or _depth > 2:
+            return []
+        ci, fs = self.eff.resolve_callee(e)
+        if not ci or len(fs) != 1:
+            return []
+        h = fs[0]
+        rt = h.type.split("(")[0].strip() if h.type else ""
+        if rt != "bool" or h.body is None or getattr(h, "lam_parent", None) is not None:
+            return []
+        if ci.get("obj") is not None and _strip(ci["obj"], casts=True).get("kind") != "CXXThisExpr":
+            objc = canon(ci["obj"])
+        else:
+            objc = None
+        memo = self.__dict__.setdefault("_pf_memo", {})
+        key = (h.key, val)
+        if key not in memo:
+            memo[key] = None
+            hg = cfg_of(h)
+            per_return = []
+            from .model import walk as _walk
+            for r in _walk(h.body):
+                if r.get("kind") != "ReturnStmt" or not _children(r):
+                    continue
+                ex = _children(r)[0]
+                ec = canon(ex)
+                if ec[0] == "lit" and isinstance(ec[1], bool):
+                    if ec[1] is not val:
+                        continue            # this return cannot produce the observed value
+                    facts = []
+                else:
+                    facts = []
+                    self._cond_atoms(ex, val, facts)
+                    facts = [(c, v) for c, v, _a, _b in facts]
+                rn = hg.node_for(r)
+                if rn is not None:
+                    for a_, v_, en_ in hg.dom_edges(rn):
+                        if isinstance(v_, bool) and not en_.from_assert:
+                            facts.append((canon(a_), v_))
+                per_return.append(set(facts))
+            if per_return:
+                common = set.intersection(*per_return)
+                pids = {p.get("id") for p in h.params}
+                from .expr import subterms as _sub
+                ok = []
+                for c, v in common:
+                    if all(not (isinstance(t, tuple) and t and t[0] == "var" and t[1] not in pids) for t in _sub(c)):
+                        ok.append((c, v))
+                memo[key] = ok
+        summ = memo.get(key)
+        if not summ:
+            return []
+        args = ci["args"]
+        if len(args) < len(h.params):
+            return []
+        amap = {p.get("id"): canon(args[i]) for i, p in enumerate(h.params)}
+
+        def sub(c):
+            if isinstance(c, tuple):
+                if c and c[0] == "var" and c[1] in amap:
+                    return amap[c[1]]
+                if c == ("this",) and objc is not None:
+                    return objc
+                return tuple(sub(y) if isinstance(y, tuple) else y for y in c)
+            return c
+        return [(sub(c), v) for c, v in summ]
 
     def _helper_facts(self, stmt):
         from .expr import strip as _strip, callee_info as _ci
@@ -136,6 +218,56 @@ class Ctx:
         res = (facts, members) if facts else None
         memo[h.key] = res
         return res
+
+    def _compound_guards(self, func, node):
+        from .expr import strip as _strip, children as _children
+
+        def unsplit(e, val):
+            s_ = _strip(e)
+            k = s_.get("kind")
+            if k == "UnaryOperator" and s_.get("opcode") == "!":
+                yield from unsplit(_children(s_)[0], not val)
+            elif k == "BinaryOperator" and s_.get("opcode") == "&&":
+                if val:
+                    for c in _children(s_):
+                        yield from unsplit(c, True)
+                else:
+                    yield s_, False
+            elif k == "BinaryOperator" and s_.get("opcode") == "||":
+                if not val:
+                    for c in _children(s_):
+                        yield from unsplit(c, False)
+                else:
+                    yield s_, True
+
+        def jumps(st):
+            while st is not None and st.get("kind") in ("CompoundStmt", "ExprWithCleanups", "AttributedStmt"):
+                ch = _children(st)
+                st = ch[-1] if ch else None
+            return st is not None and st.get("kind") in ("ContinueStmt", "BreakStmt", "ReturnStmt", "CXXThrowExpr")
+        out = []
+        top = func.body
+        child, p = node, node.get("_p")
+        while p is not None and child is not top:
+            k = p.get("kind")
+            if k == "IfStmt":
+                ch = _children(p)
+                if len(ch) >= 2 and child is ch[1]:
+                    out += [(canon(s_), v, s_, False) for s_, v in unsplit(ch[0], True)]
+                elif len(ch) >= 3 and child is ch[2]:
+                    out += [(canon(s_), v, s_, False) for s_, v in unsplit(ch[0], False)]
+            elif k == "CompoundStmt":
+                for sib in _children(p):
+                    if sib is child:
+                        break
+                    if sib.get("kind") == "IfStmt":
+                        ch = _children(sib)
+                        if len(ch) == 2 and jumps(ch[1]):
+                            out += [(canon(s_), v, s_, False) for s_, v in unsplit(ch[0], False)]
+            elif k == "LambdaExpr":
+                break
+            child, p = p, p.get("_p")
+        return out
 
     def _cond_atoms(self, e, val, out):
         """Decompose a condition known to have value `val` into atomic facts."""
